@@ -33,6 +33,13 @@ let parse_obs (f : string list) : M.obs =
   | ["return"; "err"] -> M.OReturn M.RErr
   | _ -> nomatch
 
+(* for the monitors RErr is "Loop returned an error": an error other than the accepter's own is one too (for the
+   replay it stays an observation the model never produces) *)
+let parse_obs_mon (f : string list) : M.obs =
+  match f with
+  | ["return"; v] when String.length v >= 6 && String.sub v 0 6 = "other:" -> M.OReturn M.RErr
+  | _ -> parse_obs f
+
 let parse_env (f : string list) : M.label =
   match f with
   | ["accept"; k] -> M.Accept (nat k)
@@ -106,7 +113,7 @@ let () =
         items := []; faults := []; cur := None; obs := []; envs := []; allobs := []
       | "scenario" :: fam :: seed :: idx :: _ -> hdr := String.concat " " [fam; seed; idx]
       | "env" :: _ | "rel" :: _ -> flush_cur (); cur := Some (f, ln)
-      | "o" :: rest -> let o = parse_obs rest in obs := o :: !obs; allobs := o :: !allobs
+      | "o" :: rest -> obs := parse_obs rest :: !obs; allobs := parse_obs_mon rest :: !allobs
       | ["parked"; nc; nf] -> flush_cur (); items := (A.IParked (nat nc, nat nf), ln) :: !items
       | ["final"; ret; closes; _left] ->
         flush_cur ();
